@@ -1116,7 +1116,10 @@ def run(ctx):
                 "(d) the real pyatv.connect() with PROTOCOLS replaced by fakes that keep their Core, all 31 subsets: every "
                 "protocol takes over through ITS OWN core.takeover (the partial bound in connect()), a second one fails and "
                 "must roll back, release; plus random histories; (e) the real AirPlayStream.play_url / RaopStream.stream_file "
-                "on a real FacadeAppleTV with each collaborator named in their source failing: no takeover may be left. "
+                "on a real FacadeAppleTV with each collaborator named in their source failing: no takeover may be left; "
+                "(f) per device profile and set of configured services, assembled as pyatv.connect does with the real objects: "
+                "stream_file kept in flight (http_connect never returns), every member of the taken-over interfaces that the "
+                "streaming protocol implements must be executed by it. "
                 "non-trivial = some instance executed the call / some takeover succeeded; distinct by canonical case")
     # ---------------------------------------------------------------- corpus first
     for fname, d in common.load_corpus(ctx.pid):
@@ -1337,6 +1340,30 @@ def run(ctx):
         if v:
             ctx.violation(v[0], "%s.%s with %s failing (%s): %s" % (proto, entry, ".".join(tgt), mode, v[1]),
                           {"kind": "entry-fault", "protocol": proto, "entry": entry, "collaborator": tgt, "mode": mode, "observed": r})
+    # ---------------------------------------------------------------- (f) stream_file in flight: the streaming protocol is asked first
+    import c13
+    nfl = 0
+    for pidx, prof in enumerate(c13.PROFILES):
+        sets = sorted([S for S in subsets() if "AirPlay" in S or "RAOP" in S], key=len)
+        if not ctx.thorough:
+            must = [["AirPlay"], ["RAOP"], ["AirPlay", "RAOP"], ["MRP", "AirPlay"], list(PROTOS)]
+            sets = must + rng.sample([S for S in sets if S not in must], 3)
+        for S in sets:
+            try:
+                r = vloop.run(drive_inflight, pidx, S)
+            except Exception:  # noqa
+                ctx.count("inflight:harness-error")
+                continue
+            ctx.traces += 1
+            ctx.count("inflight:" + ("in-flight" if r.get("in_flight") else ("setup-exception" if r.get("setup_exception") else "not-started")))
+            ctx.case(("inflight", prof[0], tuple(S)), nontrivial=bool(r.get("in_flight")),
+                     sample={"kind": "inflight", "profile": r["profile"], "services": r["services"], "added": r["added"],
+                             "takeovers_requested": r.get("takeovers_requested"), "calls": r["calls"][:4]} if r.get("in_flight") and nfl < 2 else None)
+            nfl += 1 if r.get("in_flight") else 0
+            for key, what, call in judge_inflight(r):
+                ctx.violation(key, what, {"kind": "inflight", "profile": r["profile"], "services": r["services"], "added": r["added"],
+                                          "member": call["member"], "executed_by": call["executed_by"],
+                                          "takeovers_requested": r["takeovers_requested"], "holders_recorded": r["holders_recorded"]})
     ctx.extra["entry_fault_points"] = [[a, b, ".".join(c)] for a, b, c, d in efc if d == "call"]
     ctx.note("histories done %.1fs" % (time.time() - ctx.t0))
     ctx.extra["gen_tables"] = {"default_ast": t["default_ast"], "power_ast": t["power_ast"], "rows": len(rows),
@@ -1505,6 +1532,132 @@ def judge_entry_fault(r):
     return None
 
 
+async def drive_inflight(pidx, services):
+    """The device object assembled the way pyatv.connect() does it under one device profile (one configuration
+    with all `services`, every setup() given core.takeover = partial(atv.takeover, <its protocol>)), real objects.
+    stream.stream_file is started and kept IN FLIGHT (its network collaborator http_connect never returns); while
+    it is, every member of the interfaces it took over that the streaming protocol implements is called through
+    the device object.  Returns who executed them."""
+    import sys
+    from functools import partial
+    import c13
+    from pyatv import conf, interface
+    from pyatv.core import CoreStateDispatcher, MutableService, create_core
+    from pyatv.core.facade import FacadeAppleTV
+    from pyatv.protocols import PROTOCOLS
+    from pyatv.settings import Settings, MrpTunnel
+    quiet()
+    prof = c13.PROFILES[pidx]
+    svcs = c13.profile_services(prof)
+    srcs = [p for p in c13.PYATV_ORDER if p in services]
+    log, tklog, cores = [], [], []
+    res = {"profile": prof[0], "services": srcs, "added": [], "calls": []}
+    never = asyncio.Event()
+
+    async def blocked(*a, **k):
+        await never.wait()
+    patched = []
+    for mn in ("pyatv.protocols.raop", "pyatv.protocols.airplay", "pyatv.support.http"):
+        mod = sys.modules.get(mn)
+        if mod is not None and hasattr(mod, "http_connect"):
+            patched.append((mod, mod.http_connect))
+            mod.http_connect = blocked
+    task = None
+    try:
+        cfg = conf.AppleTV(IPv4Address("127.0.0.1"), prof[0])
+        for src in srcs:
+            props, cred = svcs[src]
+            cfg.add_service(MutableService("verif-id", P(src), 9, props, credentials=cred))
+        settings = Settings()
+        settings.protocols.airplay.mrp_tunnel = MrpTunnel(prof[7])
+        disp = CoreStateDispatcher()
+        atv = FacadeAppleTV(cfg, None, disp, settings)
+        real_takeover = atv.takeover
+
+        def rec_takeover(protocol, *ifs):
+            tklog.append([protocol.name, [getattr(i, "__name__", str(i)) for i in ifs]])
+            return real_takeover(protocol, *ifs)
+        impl = {}
+        for src in srcs:
+            core = await create_core(cfg, cfg.get_service(P(src)), settings=settings, device_listener=atv,
+                                     core_dispatcher=disp, takeover_method=partial(rec_takeover, P(src)))
+            cores.append(core)
+            for sd in PROTOCOLS[P(src)].setup(core):
+                p = sd.protocol.name
+                first = p not in [a.split(">")[1] for a in res["added"]]
+                for k, inst in sd.interfaces.items():
+                    if first and k.__name__ in RELAYED:
+                        impl[(p, k.__name__)] = [m for m, _ in public_members(k) if overrides_mro(type(inst), k, m)]
+                    if k is interface.Features:
+                        pass
+                    elif k is interface.Stream:
+                        c13.swap_stream(inst, p, log)
+                    else:
+                        c13.swap_class(inst, k, p, k.__name__, log)
+                atv.add_protocol(await c13.offline(sd))
+                res["added"].append("%s>%s" % (src, p))
+        await atv.connect()
+        del log[:]
+        task = asyncio.ensure_future(atv.stream.stream_file("verif-no-such-file"))
+        for _ in range(200):
+            await asyncio.sleep(0)
+            if task.done() or (tklog and any(holder_of(atv, i) for i in IFLIST)):
+                break
+        streamer = [e[0] for e in log if e[1] == "Stream" and e[2] == "stream_file"]
+        res["streamed_by"] = streamer
+        res["takeovers_requested"] = list(tklog)
+        res["holders_recorded"] = {i: holder_of(atv, i) for i in IFLIST if holder_of(atv, i)}
+        res["in_flight"] = bool(streamer) and not task.done() and bool(res["holders_recorded"])
+        if res["in_flight"]:
+            sp = streamer[0]
+            for i in (tklog[-1][1] if tklog else []):
+                if i not in RELAYED:
+                    continue
+                base = iface_cls(i)
+                kinds = dict(public_members(base))
+                for m in impl.get((sp, i), []):
+                    if (i, m) in (("PushUpdater", "start"), ("PushUpdater", "stop")):
+                        continue          # broadcast to every instance by design
+                    del log[:]
+                    exc = await invoke(getattr(atv, IACC[i]), m, kinds[m], base)
+                    res["calls"].append({"member": "%s.%s" % (i, m), "executed_by": [e[0] for e in log if e[1] == i], "exception": exc})
+    except Exception as ex:  # noqa  an observation
+        res["setup_exception"] = "%s: %s" % (type(ex).__name__, ex)
+    finally:
+        if task is not None and not task.done():
+            task.cancel()
+            try:
+                await task
+            except BaseException:  # noqa
+                pass
+        for mod, orig in patched:
+            mod.http_connect = orig
+        for c in cores:
+            try:
+                await c.session_manager.close()
+            except Exception:  # noqa
+                pass
+    return res
+
+
+def judge_inflight(r):
+    """C01's takeover clause on a stream in flight: the protocol that requested the takeover and executes the
+    stream is asked before all others on the interfaces it took over.  Returns [(key, what, call)]."""
+    out = []
+    if not r.get("in_flight"):
+        return out
+    sp = r["streamed_by"][0]
+    embedded = ("%s>%s" % (sp, sp)) not in r["added"]       # the streaming protocol was set up by another protocol's setup()
+    for c in r["calls"]:
+        if c["executed_by"] != [sp]:
+            key = "C01:connect-takeover:embedded-raop-holds-as-airplay" if embedded else "C01:connect-takeover:wrong-holder"
+            out.append((key, "device profile %s, services %s (SetupData %s): while %s's stream_file is in flight (takeover requested as %s, "
+                             "holders recorded %s) %s is executed by %s (%s), expected %s" % (
+                                 r["profile"], r["services"], r["added"], sp, r["takeovers_requested"], r["holders_recorded"],
+                                 c["member"], c["executed_by"], c["exception"], sp), c))
+    return out
+
+
 def exhaustive_histories(depth):
     takes = [("T", p, ifs) for p in ("Companion", "RAOP")
              for ifs in (["Audio"], ["Metadata"], ["Audio", "Metadata"], ["Metadata", "Audio"])]
@@ -1559,6 +1712,16 @@ async def replay_one(r, rows, verbose=True):
             if v:
                 return v
         return None
+    if r.get("kind") == "inflight":
+        import c13
+        names = [p[0] for p in c13.PROFILES]
+        o = await drive_inflight(names.index(r["profile"]), r["services"])
+        v = [x for x in judge_inflight(o) if not r.get("member") or x[2]["member"] == r["member"]]
+        if verbose:
+            print("profile=%s services=%s added=%s in_flight=%s takeovers_requested=%s holders=%s calls=%s" % (
+                o["profile"], o["services"], o["added"], o.get("in_flight"), o.get("takeovers_requested"), o.get("holders_recorded"),
+                [c for c in o["calls"] if not r.get("member") or c["member"] == r["member"]]))
+        return (v[0][0], v[0][1]) if v else None
     if r.get("kind") == "entry-fault":
         localfile = os.path.join(common.BUILD, "c01_local_file.bin")
         with open(localfile, "wb") as f:
